@@ -169,7 +169,37 @@ def builder_keywords(repo, fi, depth=4, _seen=None):
     return out
 
 
-def builder_armed(repo, cname, builder, args, _concrete=False):
+def config_tables(repo):
+    """the complete configuration tables of the package: {class name: {member: value}} for every subclass of the base
+    table (active, idle), read from the class bodies"""
+    out = {}
+    base = repo.cls("_GeckoConfig", False)
+    if base is None:
+        return out
+    for cs in repo.classes().values():
+        for c in cs:
+            if c is not base and any(k is base for k in repo.mro(c)):
+                vals = {}
+                for k in reversed(repo.mro(c)):
+                    for n_, e_ in k.consts.items():
+                        if n_.startswith("__"):
+                            continue
+                        v_ = repo.try_fold(e_, k.mod, k)
+                        if isinstance(v_, (int, float)) and not isinstance(v_, bool):
+                            vals[n_] = v_
+                out[c.short] = vals
+    return out
+
+
+def distinguishing_table(repo):
+    """a configuration in which every member has a value of its own (2, 3, 4 ...): a request built under it shows
+    WHICH member each of its settings was taken from"""
+    tabs = config_tables(repo)
+    members = sorted({m for t in tabs.values() for m in t})
+    return {m: 2 + i for i, m in enumerate(members)}
+
+
+def builder_armed(repo, cname, builder, args, _concrete=False, config=None):
     """Behavioural probe of a request builder: the request is built by interpretation at model time 1000, then asked
       timeout      the largest t (seconds after construction) at which has_timedout is still False, over a grid
       budget       how many times retry(socket) succeeds before it refuses
@@ -184,16 +214,25 @@ def builder_armed(repo, cname, builder, args, _concrete=False):
             return st["clock"]
         return NotImplemented
     it.call_hook = hook
+    if config is not None:
+        # the configuration in force while the request is built: {member: value} on an instance of a complete table
+        tcls = next((repo.cls(n_, False) for n_ in ("_GeckoIdleConfig", "_GeckoActiveConfig", "_GeckoConfig") if repo.cls(n_, False) is not None), None)
+        it.globals = dict(it.globals or {})
+        it.globals["GeckoConfig"] = Obj(tcls, dict(config))
     fi = repo.method(cname, builder)
     try:
         it.steps = 0
         h = it.call(fi, None, list(args), {})
         grid = [0.0, 0.5, 1, 2, 3, 3.5, 3.9, 4, 4.1, 5, 8, 10, 20, 60, 121]
+        if config is not None:
+            grid = sorted({0.0, 0.5} | {k_ + d_ for k_ in range(1, 31) for d_ in (-0.1, 0, 0.1)} | {60, 121})
         last_false = None
         for t in grid:
             st["clock"] = 1000.0 + t
             if it.getattr(h, "has_timedout") is False:
                 last_false = t
+        if last_false == grid[-1]:
+            last_false = None       # never times out: a request built without a (positive) timeout
         sock = Obj(None, {"queue_send": Native(lambda a, k: None, "queue_send")}, name="socket")
         h.attrs["last_destination"] = ("10.0.0.1", 10022)
         budget = 0
@@ -221,7 +260,7 @@ def builder_armed(repo, cname, builder, args, _concrete=False):
                 fields = None
             if fields:
                 base = {n: (0x21 + 13 * i) & ((1 << b) - 1) or 1 for i, (n, b) in enumerate(sorted(fields.items()))}
-                return builder_armed(repo, cname, builder, _c04._subst(args, base), _concrete=True)
+                return builder_armed(repo, cname, builder, _c04._subst(args, base), _concrete=True, config=config)
         raise AnalysisError(f"{cname}.{builder}: cannot probe the built request: {e}")
     return {"timeout": last_false, "budget": budget, "flags": flags}
 
@@ -325,3 +364,40 @@ def wait_model(ctx, repo, rule_timeout, rule_outcome):
     ctx.ob(rule_timeout, f"{w.qual}::positive-timeout", (isinstance(r, str) and "AssertionError" in r) or (r is False and polls <= 2),
            f"{w.qual} on a handler built with timeout 0: {r!r} after {polls} poll(s) - a request without a positive timeout must be refused (or give up at once), not poll for ever", w.loc)
     ctx.count(f"{rule_timeout}:wait_for_response scenarios interpreted", 6)
+
+
+def armed_under_every_table(ctx, repo, rule, only=None, why=""):
+    """Every request builder, interpreted under each complete configuration table (idle, active) and under a table whose
+    members all differ: the request it builds has a POSITIVE timeout (wait_for_response asserts it; a zero timeout
+    means the answer is never waited for), and - where the builder sets a retry budget - the budget is the table's
+    PROTOCOL_RETRY_COUNT, not some other member that happens to be equal in one table."""
+    from .rules import c04 as _c04
+    tabs = dict(config_tables(repo))
+    if len(tabs) < 2:
+        raise AnalysisError("configuration tables (subclasses of _GeckoConfig) not found")
+    tabs["every-member-different"] = distinguishing_table(repo)
+    seen = set()
+    n = 0
+    for cname_, builder_, args_, _exp, _desc in _c04.message_table():
+        if builder_ not in ("request", "full_request", "set", "set_value", "keypress") or (cname_, builder_) in seen:
+            continue
+        if only is not None and cname_ not in only:
+            continue
+        seen.add((cname_, builder_))
+        m = repo.method(cname_, builder_)
+        base_pr = builder_armed(repo, cname_, builder_, args_)
+        for tname, tab in sorted(tabs.items()):
+            n += 1
+            pr = builder_armed(repo, cname_, builder_, args_, config=tab)
+            N_ = tab.get("PROTOCOL_RETRY_COUNT")
+            ok_t = "raises" not in pr and pr["timeout"] is not None and pr["timeout"] > 0
+            ctx.ob(rule, f"{m.qual}::{tname}::positive-timeout", ok_t,
+                   f"{m.qual} under the {tname} table builds a request that {'raises ' + pr['raises'] if 'raises' in pr else 'times out after ' + str(pr.get('timeout')) + ' s'}: "
+                   f"a request without a positive timeout fails the assertion of wait_for_response (the loop that sent it ends with the exception) or is never waited for{why}", m.loc,
+                   sample={"rule": rule, "builder": m.qual, "table": tname, "probe": {k_: v_ for k_, v_ in pr.items()}})
+            if "raises" not in pr and "raises" not in base_pr and base_pr["budget"] >= 1:
+                ctx.ob(rule, f"{m.qual}::{tname}::configured-budget", pr["budget"] == N_,
+                       f"{m.qual} under the {tname} table builds a request that can be retransmitted {pr['budget']} times; the table's PROTOCOL_RETRY_COUNT is {N_}: "
+                       f"the step gives up after a number of losses the configured budget covers", m.loc)
+    ctx.count(f"{rule}:builder x table probes", n)
+    return n
